@@ -51,6 +51,7 @@ FnEntries == {Consts[k].ip : k \in {j \in 1..Len(Consts) : Consts[j].t = "Fn"}}
 LocalsOf(e) == (CHOOSE k \in 1..Len(Consts) : Consts[k].t = "Fn" /\ Consts[k].ip = e)
 
 V(class, k) == [class |-> class, at |-> k]
+MaxViol == 8
 
 Init ==
   /\ pid \in 1..Len(Recs)
@@ -96,8 +97,10 @@ Step ==
          n == NameOf(a[2])
      IN /\ heads' = IF IsBackEdge(a) /\ ~(\E h \in heads : h[1] = HeadKey(a))
                     THEN heads \cup {<<HeadKey(a), a[3]>>} ELSE heads
-        /\ viol' = viol \cup ResidueViol(a)
-                        \cup (IF Mode = "full" /\ ~last THEN PairViol(a, Ev[i + 1]) ELSE {})
+        \* (a run that is wrong at every step is reported by its first few violations)
+        /\ viol' = IF Cardinality(viol) >= MaxViol THEN viol
+                   ELSE viol \cup ResidueViol(a)
+                             \cup (IF Mode = "full" /\ ~last THEN PairViol(a, Ev[i + 1]) ELSE {})
         /\ fs' = IF Mode # "full" THEN fs
                  ELSE IF n = "Call" THEN Append(fs, [ret |-> a[1] + 2, bp |-> a[4]])
                  ELSE IF n \in {"Return", "ReturnValue"} /\ fs # <<>> THEN SubSeq(fs, 1, Len(fs) - 1)
